@@ -48,6 +48,8 @@ JitterOK(d, req) ==
     LET n == Len(d.v) IN
     IF req.n <= 1 \/ FEq(req.width, "0.0") THEN n = 1 /\ FEq(d.v[1], "0.0")
     ELSE /\ n <= req.n
+         \* a Gaussian jitter narrower than the angle's range (+-360 degrees) keeps every one of its points
+         /\ (req.type = "gaussian" /\ FLt(FMul(req.nsigma, req.width), "360.0")) => n = req.n
          /\ \A i \in 1..n : FNear(d.v[i], FNeg(d.v[n + 1 - i]), "0.0", "1e-9") /\ FNear(d.w[i], d.w[n + 1 - i], "1e-12", "0.0")
 
 ApplyOrient(e) ==
